@@ -100,9 +100,19 @@ class Case:
         return ' '.join(';; ' + objline(cn, a) for cn, a in self.objs)
 
 
-def gen_cases(summary, rng, tier, classes, exact, ncases):
+def gen_cases(summary, rng, tier, classes, exact, ncases, suspects=()):
     g = codecgen.ObjGen(summary, rng)
     cases = []
+    # classes about which an obligation broke on this run are searched much harder (the search for a failing input)
+    simple0 = 'CanMessage' if 'CanMessage' in classes else None
+    for cn in suspects:
+        if cn not in classes:
+            continue
+        for k in range(80):
+            objs = [(cn, api_object(g, summary, cn, rng)) for _ in range(rng.choice([1, 2, 3]))]
+            if simple0 and k % 2:
+                objs.append((simple0, {}))
+            cases.append(Case(rng.choice([0, 1, 6]), rng.choice([1, 7, 64, 4096, 131072]) if sum(len(v) for _, a in objs for v in a.values()) <= 400 else 4096, rng.random() < 0.5, objs))
     levels = [0, 1, 6, 9] if tier == 'quick' else list(range(10))
     sizes = [1, 7, 64, 4096, 131072]
     for n in range(ncases):
@@ -185,7 +195,7 @@ def run_cases(pipe, res, cases, fexe, cexe, want_model=True):
         o['stream'] = B
         o['chunks'] = chunks
         mreq.append('writefile %s %s %s' % (c.opts(), ' '.join(zd_tokens(chunks, c.level, c.rp)), c.tail()))
-    if want_model:
+    if want_model and lib.model_ok():
         mw, rc, err = lib.psession(drv, mreq, timeout=3600)
         if len(mw) != len(mreq):
             res.oblige('D:driver-session', False, '%d answers for %d requests: %s' % (len(mw), len(mreq), err[-500:]))
@@ -204,6 +214,8 @@ def read_files(res, files, fexe, want_model=True):
         res.oblige('D:file-session', False, '%d answers for %d requests: %s' % (len(r), len(rreq), err[-500:]))
         return None, None
     mr = None
+    if want_model and not lib.model_ok():
+        return r, [None] * len(r)        # no model of this tree (see lib.lake_build): implementation-only oracles go on
     if want_model:
         mreq = ['readfile %s %s' % (f.hex() or '-', ' '.join(blfparse.zi_tokens(f))) for f in files]
         mr, rc, err = lib.psession(drv, mreq, timeout=7200)
@@ -252,8 +264,8 @@ def mask_indet(summary, cn, dump):
 def compare_read(summary, a, b, ignore_usize=False):
     """model vs implementation readfile answers, indeterminate members masked.  ignore_usize: for corrupt files the
     parser may stop (and the application close the file) while the inflater is still counting containers"""
-    if a == b:
-        return True
+    if a == b or a is None:
+        return True      # (a is None: there is no model of this tree; the broken build obligation is reported on its own)
     if 'outcome=hang' in a and 'outcome=hang' in b:
         return True
     if 'outcome=oob' in a and 'outcome=crash' in b:
